@@ -38,7 +38,7 @@ Print Assumptions C15_witness_tuple_enum.
 
 (* ---- exactly what comes back, for every type of the grammar and every well-typed value ---- *)
 Theorem C15_what_comes_back : forall E t defn v,
-  cfg_type t = true -> defn_typed t defn = true -> has_type v t = true -> defn_enum_safe E t defn = true ->
+  cfg_type t = true -> defn_typed t defn = true -> has_type v t = true ->
   value_via_config_gen E t defn (encode_cfg_gen v) = Ok (comes_back_gen defn v).
 Proof. exact leaf_characterised_gen. Qed.
 Print Assumptions C15_what_comes_back.
@@ -78,7 +78,7 @@ Print Assumptions C15_optional_some.
 
 (* the two defects in general form *)
 Theorem C15_null_falls_back : forall E u d,
-  cfg_type (TOpt u) = true -> has_type d (TOpt u) = true -> d <> VNone -> defn_enum_safe E (TOpt u) (Some d) = true ->
+  cfg_type (TOpt u) = true -> has_type d (TOpt u) = true -> d <> VNone ->
   value_via_config_gen E (TOpt u) (Some d) (encode_cfg_gen VNone) = Ok d.
 Proof. exact null_falls_back_gen. Qed.
 Print Assumptions C15_null_falls_back.
@@ -105,7 +105,7 @@ Print Assumptions C15_tree_compose.
 
 (* a member `m: Optional[Class] = None`: None comes back as None; an instance is built from its section like a plain member *)
 Theorem C15_optional_member_none : forall E s,
-  member_loads s = true -> enum_defaults_safe E s = true ->
+  member_loads s = true ->
   load_cfg_gen E (SOpt s) (Some (to_dict_gen (ILeaf VNone))) = Ok (ILeaf VNone).
 Proof. exact optional_member_none_gen. Qed.
 Print Assumptions C15_optional_member_none.
@@ -115,9 +115,9 @@ Theorem C15_witness_absent_member_tuple :
 Proof. exact witness_absent_member_tuple. Qed.
 Print Assumptions C15_witness_absent_member_tuple.
 
-(* Enums with a mixed-in data type.  IntEnum members loop (by name), falsy or not.  On the current tree a member of a (str, Enum) class
-   that is a definition DEFAULT is taken by argparse for a str default: the two ways this ends are kept as witnesses; the theorems
-   above exclude them through `defn_enum_safe` / `enum_defaults_safe` *)
+(* Enums with a mixed-in data type are inside the full statements above (no side condition): IntEnum members loop by name, falsy or not;
+   a member of a (str, Enum) class as a definition default - which argparse takes for a str default - is used unchanged (regression
+   witnesses of the two defects repaired by repo commits e04e845 and e9c428e) *)
 Theorem C15_witness_int_enum :
   value_via_config_gen (mkenv [] [(["ZERO"; "LOW"; "HIGH"], "ZERO")]) (TEnum ["ZERO"; "LOW"; "HIGH"]) (Some (VEnum "ZERO")) (encode_cfg_gen (VEnum "HIGH"))
   = Ok (VEnum "HIGH")
@@ -126,12 +126,13 @@ Theorem C15_witness_int_enum :
 Proof. exact witness_int_enum. Qed.
 Print Assumptions C15_witness_int_enum.
 Theorem C15_witness_str_enum_optional_default :
-  value_via_config_gen TAG_ENV (TOpt (TEnum ["EMPTY"; "A"; "B"])) (Some (VEnum "A")) (encode_cfg_gen VNone) = Err (Exit 2).
+  value_via_config_gen TAG_ENV (TOpt (TEnum ["EMPTY"; "A"; "B"])) (Some (VEnum "A")) (encode_cfg_gen VNone) = Ok (VEnum "A").
 Proof. exact witness_str_enum_optional_default. Qed.
 Print Assumptions C15_witness_str_enum_optional_default.
 Theorem C15_witness_str_enum_falsy_default :
   load_cfg_gen TAG_ENV (SOpt (SNode [("t", SLeaf (TEnum ["EMPTY"; "A"; "B"]) (Some (VEnum "EMPTY")))])) (Some (to_dict_gen (ILeaf VNone)))
-  = Err (Raise "KeyError").
+  = Ok (ILeaf VNone)
+  /\ finish_default_gen TAG_ENV (TEnum ["EMPTY"; "A"; "B"]) (VEnum "EMPTY") = Ok (VEnum "EMPTY").
 Proof. exact witness_str_enum_falsy_default. Qed.
 Print Assumptions C15_witness_str_enum_falsy_default.
 Theorem C15_optional_member_some : forall s xs,
@@ -141,13 +142,13 @@ Print Assumptions C15_optional_member_some.
 
 (* whole instance, each of the four file formats *)
 Theorem C15_tree_loop : forall E sfx s x,
-  str_in sfx four_suffixes = true -> in_quantifier s x = true -> side_conditions E s x = true ->
+  str_in sfx four_suffixes = true -> in_quantifier s x = true -> side_conditions s x = true ->
   config_loop_gen E sfx s x = Ok x.
 Proof. exact tree_loop_gen. Qed.
 Print Assumptions C15_tree_loop.
 
 Theorem C15_tree_meets_spec : forall E sfx s x,
-  str_in sfx four_suffixes = true -> in_quantifier s x = true -> side_conditions E s x = true ->
+  str_in sfx four_suffixes = true -> in_quantifier s x = true -> side_conditions s x = true ->
   spec_loop s x (config_loop_gen E sfx s x) = true.
 Proof. exact tree_meets_spec_gen. Qed.
 Print Assumptions C15_tree_meets_spec.
@@ -170,9 +171,9 @@ Example C15_nonvacuous :
   let x := INode [("c", ILeaf (VEnum "GREEN")); ("p", ILeaf (VPath "a/b")); ("t", ILeaf (VTup [VInt 1; VStr "x"]));
                   ("inner", INode [("xs", ILeaf (VList [VFlt false 1 "5"])); ("o", ILeaf (VInt 0))]);
                   ("m", INode [("k", ILeaf (VInt 0))]); ("m2", ILeaf VNone)] in
-  in_quantifier s x = true /\ side_conditions NOENV s x = true /\ config_loop_gen NOENV ".yaml" s x = Ok x
+  in_quantifier s x = true /\ side_conditions s x = true /\ config_loop_gen NOENV ".yaml" s x = Ok x
   /\ in_quantifier (SNode [("l", SLeaf (TList TPath) None)]) (INode [("l", ILeaf (VList [VPath "a"]))]) = true
-  /\ side_conditions NOENV (SNode [("l", SLeaf (TList TPath) None)]) (INode [("l", ILeaf (VList [VPath "a"]))]) = false
+  /\ side_conditions (SNode [("l", SLeaf (TList TPath) None)]) (INode [("l", ILeaf (VList [VPath "a"]))]) = false
   /\ config_loop_gen NOENV ".json" (SNode [("l", SLeaf (TList TPath) None)]) (INode [("l", ILeaf (VList [VPath "a"]))])
      = Ok (INode [("l", ILeaf (VList [VStr "a"]))]).
 Proof. vm_compute. repeat split; reflexivity. Qed.
